@@ -15,7 +15,7 @@ MAP_TRACED = ("/tracklib/algo/mapping.py", "/tracklib/algo/dynamics.py")
 C06_OPS = ("dist", "dist_all", "all_pairs", "prepare", "prepared")
 C07_OPS = ("path", "path_multi")
 C10_OPS = ("map", "remap")
-OTHER_OPS = ("add_edge", "reload", "index", "simplify", "sub_network", "set_weight", "save_prep", "load_prep", "rescale", "abs_again")
+OTHER_OPS = ("add_edge", "reload", "index", "simplify", "sub_network", "set_weight", "save_prep", "load_prep", "rescale", "abs_again", "set_routing")
 
 
 def _wchoice(r, pairs):
@@ -106,7 +106,9 @@ class NetWorld(World):
                 "grid": r.choice([2, 3, 4]), "step": r.choice([10.0, 25.0, 7.5]),
                 "vertical_exact": r.choice([0, 0, 0.02]), "subnet": r.choice([0, 0.03, 0.1]),
                 "int_ids": (not road) and r.random() < 0.3,
-                "reweigh": r.choice([0, 0.05, 0.15]), "persist": r.choice([0, 0, 0.05, 0.12]),
+                "reweigh": r.choice([0, 0.05, 0.15]), "routing": r.choice([0, 0, 0.04, 0.1]),
+                "empty_id": r.random() < 0.15, "travel_time": r.random() < 0.3,
+                "tmode": r.choice(["inc", "inc", "rev", "same"]), "persist": r.choice([0, 0, 0.05, 0.12]),
                 "rescale": r.choice([0, 0.05, 0.15]),
                 "alt": r.choice([0.0, 0.0, 35.5]), "prep_cut": r.choice([None, None, 3.0, 10.0]),
                 # hub mode: few nodes, many parallel edges whose weights decrease in insertion order
@@ -191,13 +193,20 @@ class NetWorld(World):
         for s in sorted(self.model):
             net, m = self.real[s], self.model[s]
             ids = list(m["nodes"])
-            if list(net.getNodesId()) != ids:
+            got = net.getNodesId()
+            if list(got) != ids:
                 return self.fail("C06", "network.structure", "node identifiers of the network of session %d" % s,
-                                 ids, list(net.getNodesId()))
+                                 ids, list(got))
             eids = [e["id"] for e in m["edges"]]
-            if list(net.getEdgesId()) != eids:
+            gote = net.getEdgesId()
+            if list(gote) != eids:
                 return self.fail("C06", "network.structure", "edge identifiers of the network of session %d" % s,
-                                 eids, list(net.getEdgesId()))
+                                 eids, list(gote))
+            # the identifier lists handed out belong to the caller, who uses them as work lists
+            if isinstance(got, list):
+                del got[:]
+            if isinstance(gote, list):
+                del gote[:]
             for e in m["edges"]:
                 ed = net.getEdge(e["id"])
                 got = [ed.source.id, ed.target.id, ed.orientation]
@@ -264,6 +273,10 @@ class NetWorld(World):
         if fam == "grow":
             if r.random() < 0.04 and not self.cfg["road"]:
                 return {"op": "simplify", "s": s, "tol": r.choice([0.5, 2.0, 5.0])}
+            if r.random() < self.cfg.get("routing", 0):
+                k = r.choice(["astar", "astar", "dijkstra", "dijkstra", "unknown"])
+                return {"op": "set_routing", "s": s, "mode": k, "wgt": r.choice([0, 0.5, 1, 2]),
+                        "value": r.choice(["ROUTING_ALGO_ASTAR", "astar", 7, None])}
             u = r.random()
             if u < self.cfg.get("reweigh", 0) and not self.cfg["road"]:
                 return {"op": "set_weight", "s": s, "e": r.randrange(64),
@@ -327,7 +340,7 @@ class NetWorld(World):
             return {"op": "remap", "s": s, "slot": slot, "noise": r.choice([1, 10, 50]),
                     "radius": self._gen_radius(r), "tcost": r.choice([1, 10])}
         st = {"op": "map", "s": s, "slot": slot, "obs": self._gen_track(r, m), "noise": r.choice([1, 10, 50]),
-              "z": self.cfg.get("alt", 0.0) if r.random() < 0.7 else 0.0,
+              "z": self.cfg.get("alt", 0.0) if r.random() < 0.7 else 0.0, "tmode": self.cfg.get("tmode", "inc"),
               "radius": self._gen_radius(r), "tcost": r.choice([1, 10]), "coll": r.random() < 0.3}
         if r.random() < 0.15:
             st["debug"] = True            # appends every candidate to observation.dat (simulated disk)
@@ -381,9 +394,11 @@ class NetWorld(World):
                 mids.insert(k, list(mids[k]))          # repeated vertex: a legal zero-length segment
             st.update({"src": a, "tgt": b, "psrc": pa, "ptgt": pb, "mids": mids, "w": None,
                        "o": r.choice([0, 0, 0, 1, -1]), "abs": True})
+            if cfg.get("travel_time"):
+                st["wf"] = r.choice([0.1, 0.5, 3.0])       # weight = travel time, not length
             return st
         nn = cfg["max_nodes"]
-        nid = (lambda k: k) if ints else (lambda k: "n%d" % k)
+        nid = (lambda k: k) if ints else (lambda k: "" if (k == 1 and cfg.get("empty_id")) else "n%d" % k)
         a = nid(r.randrange(nn))
         b = a if r.random() < cfg["loops"] else nid(r.randrange(nn))
         w = 0 if r.random() < cfg["zero_w"] else r.choice([0.5, 1, 1, 2, 3, 4, 0.25])
@@ -435,6 +450,27 @@ class NetWorld(World):
             raise Skip()
         return self.real[s], self.model[s]
 
+    def _sess_exact(self, st):
+        """Session whose answers are judged: its network routes with Dijkstra.  In A* mode
+        (documented as approximate) the same call is made and recorded, nothing is judged."""
+        net, m = self._sess(st)
+        if m.get("astar"):
+            self._unjudged(st, net, m)
+            raise Skip()
+        return net, m
+
+    def _unjudged(self, st, net, m):
+        op = st["op"]
+        if op == "dist":
+            self.call(net.shortest_distance, self._node(m, st["a"]), self._node(m, st["b"]))
+        elif op == "path":
+            a, b = self._node(m, st["a"]), self._node(m, st["b"])
+            if a != b:
+                self.call(net.shortest_path, a, b)
+        elif op == "dist_all":
+            self.call(net.shortest_distance, self._node(m, st["a"]), None)
+        self.probe("answer_in_a_star_mode_not_judged")
+
     def op_new_net(self, st):
         from tracklib.core import Network
         s = st.get("s", 0)
@@ -463,7 +499,7 @@ class NetWorld(World):
             computeAbsCurv(geom)
         e = Edge(st["id"], geom)
         e.orientation = st["o"]
-        w = st["w"] if st["w"] is not None else geom.length()
+        w = st["w"] if st["w"] is not None else geom.length() * st.get("wf", 1.0)
         e.weight = w
         _, exc = self.call(net.addEdge, e, Node(a, ENUCoords(pa[0], pa[1], 0)), Node(b, ENUCoords(pb[0], pb[1], 0)))
         if exc is not None:
@@ -499,7 +535,7 @@ class NetWorld(World):
         return kind
 
     def op_dist(self, st):
-        net, m = self._sess(st)
+        net, m = self._sess_exact(st)
         a, b = self._node(m, st["a"]), self._node(m, st["b"])
         exp = self._fw(m)[(a, b)]
         if m.get("last_source") not in (None, a):
@@ -533,7 +569,7 @@ class NetWorld(World):
                         self.probe("reverse_only_edge_on_an_optimal_path")
 
     def op_dist_all(self, st):
-        net, m = self._sess(st)
+        net, m = self._sess_exact(st)
         a = self._node(m, st["a"])
         d = self._fw(m)
         m["last_source"] = a
@@ -578,7 +614,7 @@ class NetWorld(World):
         return True
 
     def op_all_pairs(self, st):
-        net, m = self._sess(st)
+        net, m = self._sess_exact(st)
         cut = st["cut"]
         exp = self._pairs(m, cut)
         if any(v == cut for v in exp.values() if v):
@@ -606,7 +642,7 @@ class NetWorld(World):
         """prepare(cut) accumulates into the network's table (documented): every pair whose
         current distance is within the cut-off is (re)written with its current distance, every
         other entry stays what it was -- the model keeps the very same table."""
-        net, m = self._sess(st)
+        net, m = self._sess_exact(st)
         cut = st["cut"]
         _, exc = self.call(net.prepare, cut, False)
         if exc is not None:
@@ -639,7 +675,7 @@ class NetWorld(World):
 
     # ------------------------------------------------------------------ C07 op
     def op_path(self, st):
-        net, m = self._sess(st)
+        net, m = self._sess_exact(st)
         a, b = self._node(m, st["a"]), self._node(m, st["b"])
         if a == b:
             raise Skip()
@@ -679,7 +715,7 @@ class NetWorld(World):
         """One forward search from a, then several backward reconstructions: the
         documented two-phase API; every reconstruction reads the labels the
         single forward pass left on the nodes."""
-        net, m = self._sess(st)
+        net, m = self._sess_exact(st)
         a = self._node(m, st["a"])
         m["last_source"] = a
         _, exc = self.call(net.run_routing_forward, a)
@@ -770,8 +806,8 @@ class NetWorld(World):
             raise Skip()
         if any(len(e["pts"]) == 2 and e["pts"][0] == e["pts"][1] for e in m["edges"]):
             raise Skip()
-        if any(not isinstance(e["id"], str) for e in m["edges"]):
-            raise Skip()            # a file stores identifiers as text: integer identifiers do not survive by design
+        if any(not isinstance(e["id"], str) for e in m["edges"]) or "" in m["nodes"]:
+            raise Skip()            # a file stores identifiers as text: integer / empty identifiers do not survive by design
         path = "/sim/net%d.csv" % st.get("s", 0)
         self.fs.plan.arm(st.get("fault"))
         if st.get("fault"):
@@ -807,6 +843,30 @@ class NetWorld(World):
         exp = [[e["id"], e["s"], e["t"], e["o"]] for e in m["edges"]]
         if got != exp:
             self.fail("C06", "reload.structure", "edges of the reloaded network", exp, got)
+
+    def op_set_routing(self, st):
+        """One user selects the routing algorithm of *his* network.  A* is documented as
+        approximate: while a session's network is in A* mode its answers are recorded, not
+        judged; every other network of the process stays exact.  An unknown value is only
+        requested while the network is in Dijkstra mode (whether the library refuses it or
+        falls back to Dijkstra, the network must keep answering exactly)."""
+        net, m = self._sess(st)
+        k = st["mode"]
+        if k == "unknown":
+            if m.get("astar"):
+                raise Skip()
+            _, exc = self.call(net.setRoutingMethod, st["value"])
+            self.stats["fault_fired:rejected_request"] += 1
+            self.probe("unknown_routing_method_requested")
+            self.observed(["unknown", None if exc is None else type(exc).__name__])
+            return "rejected" if exc is not None else "ok"
+        _, exc = self.call(net.setRoutingMethod, 1 if k == "astar" else 0)
+        if exc is None and k == "astar":
+            _, exc = self.call(net.setAStarWeight, st["wgt"])
+        if exc is not None:
+            return self._unexpected("C06", exc, "setRoutingMethod")
+        m["astar"] = (k == "astar")
+        self.probe("a_star_selected_on_one_network" if m["astar"] else "dijkstra_selected")
 
     def op_set_weight(self, st):
         """The caller re-weighs an edge (public attribute): a road gets slower or faster."""
@@ -1070,7 +1130,11 @@ class NetWorld(World):
             z = st.get("z", 0.0)
             if z:
                 self.probe("track_with_altitude_on_a_flat_network")
-            tr = Track([Obs(ENUCoords(x, y, z), ObsTime(2020, 1, 1, 0, 0, k % 60)) for k, (x, y) in enumerate(obs)])
+            tm = st.get("tmode", "inc")
+            if tm != "inc":
+                self.probe("track_whose_timestamps_do_not_increase")
+            sec = (lambda k: k % 60) if tm == "inc" else ((lambda k: 59 - k % 60) if tm == "rev" else (lambda k: 30))
+            tr = Track([Obs(ENUCoords(x, y, z), ObsTime(2020, 1, 1, 0, 0, sec(k))) for k, (x, y) in enumerate(obs)])
             self.tracks[key] = {"real": tr, "obs": obs}
         if m["grown_since_prepare"]:
             self.probe("mapping_after_addEdge")
